@@ -34,6 +34,42 @@ def run(ctx: RuleContext):
     cg = CallGraph(m)
     ctx.sub(check_balance, ctx, sb, cg, "C05")
     ctx.sub(check_storage_discipline, ctx, r)
+    ctx.sub(check_passthrough_guard, ctx, r)
+
+
+# ------------------------------------------------------------------------ C05.5
+def check_passthrough_guard(ctx: RuleContext, r):
+    """The only way a new-style wrapper may run the body *without* a binding context of its own is the
+    pass-through taken when checking is switched off.  A further reason to take it that is decided from a
+    property of the decorated function (no annotations, a private name, ...) means: for such functions,
+    manual `isinstance` checks in the body bind into -- and read from -- the caller's context."""
+    from .c19 import _atoms_of, is_passthrough_call, new_style_wrappers
+
+    m = ctx.model
+    jt = m.func("_decorator.jaxtyped")
+    n = 0
+    for w, impl in new_style_wrappers(m, r):
+        g = NoReturn(m).cfg(w)
+        for tn in g.live_nodes():
+            if tn.kind != "test":
+                continue
+            if not any(k in ("t", "f") and s_.kind == "return" and is_passthrough_call(s_.ast.value) for k, s_ in tn.succ):
+                continue
+            n += 1
+            for a in _atoms_of(tn.ast):
+                if isinstance(a, ast.Name):
+                    b = m.resolve_name(w, a.id)
+                    if b.kind == "freevar":
+                        defs = [st for st in walk_scope(jt.node) if isinstance(st, (ast.Assign, ast.AnnAssign)) and any(
+                            isinstance(t, ast.Name) and t.id == a.id for t in (st.targets if isinstance(st, ast.Assign) else [st.target]))]
+                        reads_switch = any(isinstance(x, ast.Attribute) and x.attr in ("jaxtyping_disable", "__no_type_check__") or
+                                           (isinstance(x, ast.Constant) and x.value == "__no_type_check__") for st in defs for x in ast.walk(st))
+                        if defs and not reads_switch:
+                            ctx.bad("C05.5", w, tn.ast, f"the wrapper also skips its binding context when `{a.id}` holds (`{short(defs[0], 60)}`, decided when the function was "
+                                    "decorated): for those functions a manual isinstance check in the body binds into the caller's context and sees the caller's bindings",
+                                    construct=f"pass-through guard has a non-switch reason: {a.id}")
+            ctx.ok("C05.5", w.qualname, f"pass-through guard `{short(tn.ast, 70)}` examined")
+    ctx.counters["passthrough_guards"] = n
 
 
 # ---------------------------------------------------------------------- C05.1-3
